@@ -41,7 +41,10 @@ type w6bScript struct {
 }
 
 var w6bDelays = []int{0, 40, 1000, 20000}
-var w6bSleeps = []int{1, 30, 700, 5000, 30000}
+// the sleeps include the flush delays themselves: a task that adds, sleeps exactly MaxDelay
+// and acts again does so at the very instant the flush timer fires, which puts the timer
+// goroutine and the task into the same ready set (who goes first is a scheduler decision)
+var w6bSleeps = []int{1, 30, 700, 5000, 30000, 40, 1000, 20000, 40, 1000}
 
 func w6bGen(c *simrt.Choice, prop, tier string) any {
 	sc := &w6bScript{}
@@ -568,7 +571,9 @@ func w6bOracle(s *simrt.Sim, sc *w6bScript, all []*w6bItem, items map[uint64]*w6
 		}
 		cfg := cfgOf(x.ch)
 		if x.flush >= 0 {
-			if cfg.MaxDelay > 0 && flushes[x.flush].at > x.retTime+cfg.MaxDelay+w6bSlack {
+			// (an exact-time clause: only judged in runs without the "time passes while
+			// runnable goroutines stay parked" fault, which delays the flush itself)
+			if cfg.MaxDelay > 0 && s.Stalls == 0 && flushes[x.flush].at > x.retTime+cfg.MaxDelay+w6bSlack {
 				s.Violate("C13", "delay", "item flushed later than MaxDelay after its Add"+tag(x), "ch%d: Add of %x returned at t=%v, flushed at t=%v, MaxDelay %v", x.ch, x.id, x.retTime, flushes[x.flush].at, cfg.MaxDelay)
 			}
 			continue
@@ -621,6 +626,7 @@ func init() {
 		NewScript: func() any { return &w6bScript{} },
 		Run:       w6bRun,
 		Shrinks:   w6bShrinks,
+		Stall:     func(prop string) bool { return true },
 		Nontrivial: func(prop string, r *simrt.Result) bool {
 			return r.Probes["nontrivial:C13"] > 0
 		},
